@@ -292,4 +292,27 @@ def d5_ets(facts, rep):
         short = fn.p.split('::')[-1]
         rep.ob('D5', 'K11', fn, 'plain stores to my_root / my_count occur only in the non-concurrent table functions', short in allowed,
                '%s stores my_root/my_count plainly on a concurrent path' % fn.p, key_extra=fn.p)
-    rep.floor('D5', 7, 'ETS table')
+    # the per-instance-key specialisation caches each thread's element pointer in a native TLS slot.  set_tls() reaches the calling
+    # thread only; the one way to drop EVERY thread's cached pointer is to destroy the key.  So whenever the hashed table is
+    # emptied (table_clear: clear(), assignment) the key is destroyed and created afresh - otherwise another thread's next
+    # local() returns the address of its destroyed element with exists == true (no initialiser call, two threads share an
+    # element, size()/combine() miss the thread).
+    ncache = 0
+    for fn in facts.get(E + 'table_clear'):
+        if not (calls_named(fn, ('table_clear',)) and fn.d.get('params') is not None):
+            continue
+        sup = [c for c in calls_named(fn, ('table_clear',))]
+        if not sup:
+            continue                      # the plain hashed table: nothing cached
+        ncache += 1
+        dk = calls_named(fn, ('destroy_key',))
+        ck = calls_named(fn, ('create_key',))
+        ok = bool(dk) and bool(ck) and every_path_passes(fn, 'entry', lambda p, e: p in set(c[0] for c in dk))[0] and \
+            all(every_path_passes(fn, 'entry', lambda p, e: p in set(c[0] for c in dk), end=c[0])[0] for c in ck) and \
+            every_path_passes(fn, 'entry', lambda p, e: p in set(c[0] for c in ck))[0]
+        rep.ob('D5', 'K4', fn, 'emptying the table of a per-instance-key container invalidates every thread\'s cached element pointer (key destroyed and re-created)',
+               ok, 'the native key survives table_clear(): other threads keep the address of their destroyed element in their TLS slot; their next '
+               'local() returns it as an existing element', key_extra='tls-cache')
+    if ncache < 1:
+        raise AnalysisBroken('ets_base<ets_key_per_instance>::table_clear not instantiated')
+    rep.floor('D5', 8, 'ETS table')
